@@ -1743,6 +1743,7 @@ void f_parse_command () {
    * perform some stack manipulation;
    */
   ret = sp;
+  STACK_CHECK (num_arg + 1);
   sp += num_arg + 1;
   arg = sp;
   *(arg--) = *(ret--); /* move pattern to top of stack */
